@@ -30,6 +30,13 @@ BOUNDS = {
 }
 
 
+# thorough tier (VERIF_NATIVE_DEEP=1): what the larger enumeration is
+DEEP_BOUNDS = {
+    "c16_policy_roots_replay": "every depth-1 policy combined with every leaf on either side (and / or / 3-child threshold): about 26000 policies",
+    "c05_machine_semantics_replay": "30 unary / 20 binary sub-expressions at depth 2 (instead of 14 / 12), comp over every 2nd x 3rd pair (instead of 5th x 7th): several thousand executions",
+}
+
+
 def _prepare(repo):
     os.makedirs(SRC, exist_ok=True)
     subprocess.run(["rsync", "-a", "--delete", "--exclude", "/target", "--exclude", ".git", "--exclude", "/fuzz/target",
@@ -43,12 +50,16 @@ def _prepare(repo):
             f.write("\n#[cfg(test)]\n#[path = \"%s\"]\nmod verif_native_%s;\n" % (dst, fn[:-3]))
 
 
-def run(test, repo, timeout=3000):
-    """-> (status 'fails'|'passes'|'inconclusive', [CEX lines], output tail)"""
+def run(test, repo, timeout=3000, deep=False):
+    """-> (status 'fails'|'passes'|'inconclusive', [CEX lines], output tail)
+    deep: the thorough tier's larger enumeration (oracles that have one read VERIF_NATIVE_DEEP)"""
     _prepare(repo)
     env = dict(os.environ)
     env["CARGO_TARGET_DIR"] = TARGET
     env["CARGO_NET_OFFLINE"] = "true"
+    env.pop("VERIF_NATIVE_DEEP", None)
+    if deep:
+        env["VERIF_NATIVE_DEEP"] = "1"
     cmd = ["cargo", "test", "--offline"] + ([] if test in DEBUG_PROFILE else ["--release"]) + ["--lib", test, "--", "--nocapture", "--test-threads", "1"]
     try:
         p = subprocess.run(cmd, cwd=SRC, env=env, capture_output=True, text=True, timeout=timeout)
@@ -68,8 +79,8 @@ def run(test, repo, timeout=3000):
     return "inconclusive", cex, out[-3000:]
 
 
-def find_cex(test, repo):
-    st, cex, tail = run(test, repo)
+def find_cex(test, repo, deep=False):
+    st, cex, tail = run(test, repo, deep=deep)
     if st != "fails" or not cex:
         return None
     return {"engine": "native", "test": test, "oracle_file": "native/" + ORACLES[test], "failing_inputs": cex[:25],
